@@ -1,7 +1,13 @@
 ------------------------------ MODULE MC_Cro ------------------------------
 EXTENDS Cro, TLC, Json
-McView == <<pe, ke, buffer, h>>
-\* export: one line per transition that is a reaction (prepared state before, action, one admissible outcome)
-PrintEdge == (act'.op \in {"init", "scoped_init", "on_wall", "decompose", "intermolecular", "synthesis"}) =>
-                PrintT(<<"EDGE", ToJson([from |-> [pe |-> pe, ke |-> ke, buffer |-> buffer], act |-> act', res |-> res'])>>)
+McView == <<pe, ke, sol, buffer, below, h>>
+\* export: one line per (prepared state, reaction) pair -- of the transitions that differ only in how the released energy is
+\* split, the one that gives the first reactant no kinetic energy stands for all (every accepted reaction has it)
+OneSplit == \/ act'.op \in {"init", "scoped_init", "synthesis"}
+            \/ res'.k = "rejected"
+            \/ ke'[act'.i] = 0
+\* (export only) prepared states within two reactions of an initial state
+Shallow == TLCGet("level") <= 5
+PrintEdge == (act'.op \in {"init", "scoped_init", "on_wall", "decompose", "intermolecular", "synthesis"} /\ OneSplit) =>
+                PrintT(<<"EDGE", ToJson([from |-> [pe |-> pe, ke |-> ke, sol |-> sol, buffer |-> buffer, below |-> below], act |-> act', res |-> res'])>>)
 =============================================================================
